@@ -2,10 +2,15 @@
    Statements only; proofs in Proofs/SubsFacts.v, Proofs/C03Proof.v.  The per-subscription
    queue is the list of events the model emits for that channel, request after request; what
    is proved here is the content of every single emission and the registration bookkeeping.
-   The history-level statement "queue = snapshot ++ one event per later accepted matching change"
-   is not yet proved in Coq (covered by the correspondence and the event-specification oracle). *)
+   History level (Proofs/StreamProof.v): C03_stream -- for every history of reads, sets, csets, deletes and publishes
+   after the registration, with any number of other subscriptions registered, the channel carries in order exactly
+   one event per accepted change that concerns it; C03_unsubscribe_removes + C03_silent_after_unsubscribe -- nothing
+   after its unsubscribe.  Not proved (compared by the correspondence and the event oracle): pdelete and import
+   inside the history, and other subscriptions being added or removed while the history runs. *)
+From Coq Require Import List.
+Import ListNotations.
 From WB Require Import Base.Str Base.Json Model.Key Model.Store Model.Match Model.Subs Model.Entry Model.Core
-  Proofs.SubsFacts Proofs.MatchFacts Proofs.C03Proof.
+  Proofs.SubsFacts Proofs.MatchFacts Proofs.C03Proof Proofs.StreamProof.
 
 (* routing through the subscriber tree = the relation sub_match on the registered position *)
 Theorem C03_routing :
@@ -52,6 +57,47 @@ Theorem C03_psubscribe :
     end.
 Proof. exact psubscribe_spec. Qed.
 Print Assumptions C03_psubscribe.
+
+(* every subscriber appears at most once in what one change is routed to: exactly-once delivery *)
+Theorem C03_routed_once :
+  forall key n, wfs n -> NoDup (all_subs n) -> NoDup (add_matches n key).
+Proof. exact add_matches_nodup. Qed.
+Print Assumptions C03_routed_once.
+
+(* the stream of a registered subscription over any history of data requests: in the order the server applied
+   them, exactly the events the accepted changes imply for its pattern -- none for refused requests, none for
+   value-preserving writes if it asked for unique values *)
+Theorem C03_stream :
+  forall os s sb, SInv s -> UI s -> In sb (subs_at (subs s) (s_pat sb)) -> Forall data_op os -> no_crash_run s os ->
+  stream (s_inst sb) s os = expected_stream sb s os.
+Proof. exact stream_spec. Qed.
+Print Assumptions C03_stream.
+
+(* an acknowledged unsubscribe removes the subscription (its id still mapping to its own pattern: otherwise F24) *)
+Theorem C03_unsubscribe_removes :
+  forall s sb, SInv s -> UI s -> In sb (subs_at (subs s) (s_pat sb)) ->
+  assoc_get id_eqb (s_client sb, s_tid sb) (subscriptions s) = Some (s_pat sb) ->
+  let s' := fst (do_unsubscribe s (s_client sb) (s_tid sb)) in
+  o_res (snd (do_unsubscribe s (s_client sb) (s_tid sb))) = RUnit /\
+  SInv s' /\ (forall x, In x (all_subs (subs s')) -> s_inst x <> s_inst sb).
+Proof. exact unsubscribe_removes. Qed.
+Print Assumptions C03_unsubscribe_removes.
+
+(* ... and no event reaches its channel afterwards, whatever is written *)
+Theorem C03_silent_after_unsubscribe :
+  forall os s i, SInv s -> (forall x, In x (all_subs (subs s)) -> s_inst x <> i) -> Forall data_op os ->
+  stream i s os = [].
+Proof. exact silent_after_unsubscribe. Qed.
+Print Assumptions C03_silent_after_unsubscribe.
+
+Example C03_stream_nonvacuous :
+  let s := fst (do_psubscribe (fst (do_psubscribe init 2 1 [97;47;35] true true)) 3 1 [97;47;63] false true) in
+  let sb := Subscriber 2 1 0 (kseg_parse [97;47;35]) true true in
+  In sb (subs_at (subs s) (s_pat sb)) /\
+  stream 0 s [OSet 1 [97;47;98] (JBool true) false; OSet 1 [97;47;98] (JBool true) false; OSet 1 [98] JNull false;
+              ODelete 1 [97;47;98]; OCSet 1 [97;47;99] JNull 3 false] =
+  [EPValue [([97;47;98], JBool true)]; EPDeleted [([97;47;98], JBool true)]].
+Proof. vm_compute. split; [now left|reflexivity]. Qed.
 
 (* known finding F2 in this property's terms: the snapshot of `k/#` contains k, later changes of k
    are not routed to it *)
